@@ -16,8 +16,8 @@ CHECKS = {
             "§5 C08"),
     "C09": ("vf-store", "exploration",
             "systematic single-site tamper enumeration over generated write scripts (proptest), every read path checked against the written bytes; plaintext-window and nonce-reuse scans",
-            "For generated write scripts every single-site tamper of a systematic family (bit flips of every byte, every truncation, extensions, deletions, chunk swaps, object replacement/swaps, structured CBOR edits of every metadata field incl. every subset of stripped auth fields, re-pointed generations, earlier authentic documents) is applied and every read path must return the written bytes or fail; backend objects are scanned for plaintext windows and nonce reuse after every write.",
-            "Single-site tampering only (the property's quantifier); coordinated roll-back of metadata AND payload is outside it. AES-GCM and the CBOR codec are trusted; nonce uniqueness is only checked over generated histories.",
+            "For generated write scripts every single-site tamper of a systematic family (bit flips of every byte, every truncation, extensions, deletions, chunk swaps, object replacement/swaps, structured CBOR edits of every metadata field incl. every subset of stripped auth fields, re-pointed generations, earlier authentic documents) and of one two-site family (legacy downgrade: a donor document without its generation pointer and without subsets of the authentication fields, installed for every key together with the donor's payload staged at the pre-0.10 path data/<key>) is applied and every read path must return the written bytes or fail; backend objects are scanned for plaintext windows and nonce reuse after every write.",
+            "Single-site tampering (the property's quantifier) plus the one two-site legacy-downgrade family; a coordinated roll-back of a key's AUTHENTIC metadata and payload is outside it. In compatibility (non-strict) mode the head / list fields of a key whose tampered document decodes to a fully stripped (legacy) one are not compared - the documented downgrade window; payload reads stay held to written-bytes-or-error. AES-GCM and the CBOR codec are trusted; nonce uniqueness is only checked over generated histories.",
             "§5 C09"),
     "C10": ("vf-index", "exploration",
             "model-based stateful property testing against BTreeMap<K, BTreeSet<id>> (proptest histories), flush-prefix crash enumeration, controlled thread-schedule exploration at instrumented yield points (exhaustive for fixed pairs, generated beyond)",
@@ -30,9 +30,9 @@ CHECKS = {
             "Trusts the default tokenizer as the documented bridge from text to tokens (used by the reference too), the harness's own set-algebra evaluator and proptest. One listed known finding (same-id insert overlapping an in-flight remove) is excluded by its schedule signature and counted.",
             "§5 C11"),
     "C12": ("vf-index", "exploration",
-            "model-based property testing against brute-force exact neighbours (proptest histories with seeded graph layers), flush-prefix crash enumeration, seeded recall statistics on the documented workloads",
+            "model-based property testing against brute-force exact neighbours (proptest histories with seeded graph layers), flush-prefix crash enumeration, seeded recall statistics on the documented workloads and on one derived workload (the documented Cosine workload on unit vectors under InnerProduct)",
             "Generated insert/remove/re-insert/flush/cut-flush/reload/search histories over all metrics, dimensions 2..64, both selection strategies, tiny M: every search returns <= k distinct live ids in non-decreasing distance order with distances equal (2e-4) to the documented metric on the stored bf16 vector; loads after any cut flush succeed, list only committed (or interrupted) ids with committed-or-interrupted vectors and stay sound. The documented recall workloads plus an interrupted-flush + re-index workload are re-run over several seeds and compared with the documented floors (fixed margin 0.05 for the interrupted case).",
-            "Recall is a statistic (mean over seeds vs documented average floor, per seed vs worst-case floor); completeness of a single search is not demanded. Graph layers come from the seeded verif hook. Trusts the harness's f64 metric implementations and proptest.",
+            "Recall is a statistic (mean over seeds vs documented average floor, per seed vs worst-case floor); completeness of a single search is not demanded. No floor is documented for InnerProduct: the derived workload is held to the Cosine floors minus a fixed margin of 0.10 (same neighbour order on unit vectors). A tenth of the stored vectors and one query kind carry unusual magnitudes (2^-17, 2^-10, 2^10); within 1 % of the documented near-zero cut-off of the cosine metric both answers are accepted. Graph layers come from the seeded verif hook. Trusts the harness's f64 metric implementations and proptest.",
             "§5 C12"),
     "C01": ("vf-db", "fault_enumeration",
             "crash-point enumeration over generated operation histories (proptest) with a model allowed-set oracle; nested crashes inside recovery; land-then-fail (unknown outcome) fault injection",
@@ -56,7 +56,7 @@ CHECKS = {
             "§5 C04"),
     "C05": ("vf-db", "exploration",
             "systematic (all interleavings for 2-op sets) and generated schedule exploration over a parking object store on a single-threaded executor, with a Wing-Gong linearizability search against the sequential model",
-            "17 fixed two-operation sets (same-document update/update, update/remove, remove/remove, contended unique values, operations racing flush, extension pairs, readers overlapping writers) under EVERY release order of their backend mutations, and generated sets of 2-4 operations under generated schedules: some order of the mutating ops consistent with per-document real-time order must reproduce every return value and the final documents/extensions; all indexes agree with the final documents; reads return whole documents some call wrote; the storage as it was when a concurrent flush returned reopens to a prefix state.",
+            "17 fixed two-operation sets (same-document update/update, update/remove, remove/remove, contended unique values, operations racing flush, extension pairs, readers overlapping writers) under EVERY release order of their backend mutations, the reader sets a second time on a reopened handle (cold read cache) with the reader's own backend reads as decision points, and generated sets of 2-4 operations under generated schedules (half of them on a cold handle with parked reads): some order of the mutating ops consistent with per-document real-time order must reproduce every return value and the final documents/extensions; all indexes agree with the final documents; reads return whole documents some call wrote; the storage as it was when a concurrent flush returned reopens to a prefix state.",
             "The harness owns the schedule only at backend-call granularity on a single-threaded executor; interleavings inside one synchronous section on different cores are not explored (no multi-threaded stress sub-check is registered). Trusts the sequential model, ParkStore and quiescence detection (4 stable scheduler rounds).",
             "§5 C05"),
     "C06": ("vf-db", "exploration",
@@ -72,7 +72,7 @@ CHECKS = {
     "C14": ("vf-server", "exploration",
             "complete request-matrix enumeration over generated admin histories (proptest), non-interference across six name-rotated worlds, logging object store (per-request mutation log), admin/key-holder logical-state differential (two-world)",
             "Every (route, method from the tables extracted from api/mod.rs at run time + unknown / non-string / garbage / oversized bodies, principal incl. none / malformed / garbage / admin / bound / revoked keys, encoding x Accept, addressed name, own / foreign parameters) cell is enumerated completely after each of 6 fixed and N generated admin histories. Rejections must be byte-identical (status, headers, body) whatever the addressed name is in each of six worlds that rotate the names over the roles; bound-key requests may show no foreign marker and write only under their own prefix; Read-classified methods leave the mutation log empty on clean, read-only and dirty state; all answers recur after restart.",
-            "Sequential requests only (no concurrency). Timing equalisation, numeric side channels, TLS / proxy layers and anda_db_shard_proxy are not covered. Read/Mutating classes are taken from the source table; only the names are probe-validated (extraction failure = exit 2).",
+            "Every case ends with a start WITHOUT an admin key over the same storage (half of them after closing every bound database): it must be refused, or an unauthenticated caller must still be rejected on every bound database. Sequential requests only (no concurrency). Timing equalisation, numeric side channels, TLS / proxy layers and anda_db_shard_proxy are not covered. Read/Mutating classes are taken from the source table; only the names are probe-validated (extraction failure = exit 2).",
             "§5 C14"),
     "C15": ("vf-kip", "exploration",
             "grammar-based generation on a choice tape with typed tokens, token-level mutation, arbitrary Unicode and limit padding; metamorphic relations (keyword case, whitespace, comments), cross-entry-point differential, serde round trip, explicit budget cases parsed in a child process",
@@ -91,18 +91,18 @@ CHECKS = {
             "§5 C17"),
     "C18": ("vf-nexus", "exploration",
             "record-live / replay-AS-OF metamorphic battery over generated committed histories (proptest), version-log append-only / payload-immutability check, purge-difference check",
-            "Quick: 80 histories of 6-16 committed statements (25 statement families incl. two schema activations); a 57-read battery (25 pattern families incl. BELIEF, paths, aggregates, schema-dependent reads) is recorded after every write and replayed AS OF SEQ after every later write and AS OF TX / TIME / snapshot token at the end (about 380k replays, about 36 % differing from the present); 400 payload histories (no version row rewritten or lost without PURGE, assertion / evidence payloads immutable); 120 purge cases (only the purged rows differ); 12 regression inputs. Thorough: 1 600 / 8 000 / 2 400 (8 M replays).",
+            "Quick: 80 histories of 6-16 committed statements (25 statement families incl. two schema activations); a 57-read battery (25 pattern families incl. BELIEF, paths, aggregates, schema-dependent reads) is recorded after every write and replayed AS OF SEQ after every later write and AS OF TX / TIME / snapshot token at the end (about 380k replays, about 36 % differing from the present); 400 payload histories (no version row rewritten or lost without PURGE, assertion / evidence payloads immutable); 120 purge cases (only the purged rows differ); 12 regression inputs. Thorough: 1 600 / 120 / 8 000 / 2 400 (8 M replays).",
             "Every replay must equal its live recording in full (rows, order, field values incl. _system, beliefs, schema_environment_version); only the read's own coordinates are removed; ledger id lists inside a projected belief are compared as sets (the engine lists them in numeric id order live and in lexicographic order historically - recorded as an observation, not a violation, because the property speaks of what was current, not of list order inside an explanation). SEARCH .. AS OF and nested tuples are refused by the engine and not covered; PURGE only of unreferenced elements. One genuine defect found and repaired (explicit state matcher on historical reads).",
             "§5 C18"),
     "C19": ("vf-nexus", "exploration",
             "two-world non-interference (same script; the unreadable elements are never created in the second world; reference-closed; masked content varied), an independent reference decision function written from the documented rule order, twin-principal immediate-effect check, delegate-within-delegator view relation, host-side byte comparison of the control plane around every session command",
-            "Generated governance configurations (2-4 principals, groups, grants scoped by kind / type / classification / element with ceilings, field masks and conditions, delegation chains incl. amplification attempts, versioned allow / deny policies, suspend / revoke / membership events) x 10-30-element populations x a battery of about 90 KQL / META commands. Quick: 2 128 cases (about 1 575 non-trivial): 64k two-world comparisons, 27k reference decisions, 34k requests issued right after a control-plane event (all 10 event kinds), 1.1k delegate-vs-delegator view checks, 7k session commands (40 shapes) each framed by a dump of the gov_* collections and every element's governance block. Thorough: 42 408 cases.",
+            "Generated governance configurations (2-4 principals, groups, grants scoped by kind / type / classification / element with ceilings, field masks and conditions, delegation chains incl. amplification attempts, versioned allow / deny policies, suspend / revoke / membership events) x 10-30-element populations x a battery of about 90 KQL / META commands. Quick: 2 128 cases (about 1 575 non-trivial): 64k two-world comparisons, 27k reference decisions, 34k requests issued right after a control-plane event (all 10 event kinds), 1.1k delegate-vs-delegator view checks, 7k session commands (45 shapes incl. derivation statements whose Activity outputs are elements that already exist) each framed by a dump of the gov_* collections and every element's governance block. Thorough: 42 408 cases.",
             "Eight genuine defects found: four repaired (K3 SEARCH over-fetch window, K4 AS OF admitted by the historical classification, K5 HISTORY ELEMENT of a hidden id, K8 PREVIEW KML / mutation existence leak; their fixed cases now pass and a recurrence is a violation), four listed known findings (K1 reference disclosure, K2 SEARCH scores, K6 SEARCH over masked fields, K9 a deny of the delegator does not reach delegates) that are reproduced by fixed cases and excluded by construction or attributed by signature (counted) in the generated sub-checks. Not covered: live wall-clock expiry (windows are years away), approvals / break-glass, max_results, BELIEF over masked confidence, cyclic delegations, named delegation chains. 11 hand-made mutants all caught in the quick tier.",
             "§5 C19"),
     "C20": ("vf-nexus", "exploration",
             "differential against a harness reference (documented eligibility stages, graph connected components over shared actor / evidence, score = 1 - prod(1 - strongest confidence per group), accept/material table), order-permutation invariance, metamorphic laws, bounded-exhaustive enumeration of the grouping alphabet, through real KML/KQL",
             "Bounded-exhaustive on the grouping alphabet (3 actors x evidence subsets of size <= 2 = 21 assertion types): all multisets of <= 3 assertions in all orders (quick) / <= 5 (thorough), plus all 24 orders of every 3-way-bridge 4-multiset; randomized beyond (<= 8 assertions, rivals of a functional predicate, stances, confidences incl. unstated, modes, validity windows, retract / supersede, evaluation times, policy overrides). Status, group counts, id sets, exclusion reasons and scores (1e-9) must equal the reference, be independent of recording order, never report rejected without opposition, never gain groups or score from repetition, never lose score when a group's strongest confidence rises, and name the policy.",
-            "Policy selection is limited to what WITH EPISTEMIC exposes; trust / evidence-quality stages are unimplemented in the engine and not covered; expiry is covered as a past validity window; at most one unattributed assertion per multiset (documentation and behaviour disagree on how those group; the property does not say); statuses within 1e-9 of a threshold are checked as one of the two adjacent ones.",
+            "The evaluation instant is spelled in one of six valid RFC 3339 ways (Z, milliseconds, +00:00, +08:00, -05:00 / -12:00, +14:00) and lies at midnight of a day that is no window edge or at noon of any day incl. the edge days. Policy selection is limited to what WITH EPISTEMIC exposes; trust / evidence-quality stages are unimplemented in the engine and not covered; expiry is covered as a past validity window; at most one unattributed assertion per multiset (documentation and behaviour disagree on how those group; the property does not say); statuses within 1e-9 of a threshold are checked as one of the two adjacent ones.",
             "§5 C20"),
 }
 
